@@ -440,6 +440,21 @@ def decide_L(prop, tier, seed, t0, replay):
         info = chan_l.run(seed, tier)
     an = chan_l.analyse(info["dirs"], prop)
     oracle = [o for o in an["oracle"] if o["property"] == prop]
+    if prop in ("C02", "C03") and not replay:
+        # the compiled record types: size_of / align_of of every generated record type (channel X `sizes`), record alignment vs fields
+        run_translators()
+        chan_x.build_gen()
+        lake_build(["trucdrv"])
+        xinfo = chan_x.run(seed, tier, read_prims())
+        xan, xreq = chan_x.analyse(xinfo, read_prims())
+        for o in xan["oracle"]:
+            if o["property"] == prop:
+                oracle.append({"property": prop, "message": o["message"] + f" (build {o['build']})", "requests": chan_x.module_of(xreq, o["line"]) if xreq else []})
+        sizes_bad = [d for d in xan["disagreements"] if d and d["request"].startswith("x sizes")]
+        if sizes_bad:
+            an["n_disagree"] = an.get("n_disagree", 0) + len(sizes_bad)
+            an["disagreements"].append({"dir": "", "history": 0, "line": 0, "request": "x sizes", "impl": sizes_bad[0]["lab"], "model": sizes_bad[0]["model"], "requests": chan_x.module_of(xreq, sizes_bad[0]["line"])})
+        an["record_types_measured"] = xan["by_op"].get("sizes", 0) * 3
     if prop == "C13" and not replay:
         # second sentence of C13: the generated modules compile (all four fragment selections, 3 builds of the lab)
         run_translators()
@@ -526,6 +541,8 @@ def decide_L(prop, tier, seed, t0, replay):
     }
     if det is not None:
         cov["two_process_lines_compared"] = det["lines"]
+    if "record_types_measured" in an:
+        cov["compiled_modules_with_size_align_measured"] = an["record_types_measured"]
     if "modules_compiled" in an:
         cov["generated_modules_compiled"] = an["modules_compiled"]
     write_evidence(prop, tier, seed, cov, ["layouts end below 2^63 (usize overflow not modelled beyond the usize::MAX sentinel)",
